@@ -54,7 +54,7 @@ CHECKS.update({
    "Full-window alpha-beta in 7 configurations (static leaf, captures-only quiescence, TUROCHAMP, SARGON, BERNSTEIN at three branch limits) is compared at every depth 0..D on a corpus of mate nets, endgames, tactical fragments and roots whose history makes draws occur inside the tree with an unpruned reference search that uses the reference rules, draw events and score order; the PV must be legal, within depth, non-empty when it must be, its first move must attain the value, and the board must come back unchanged. The draw roots come with equal and with unequal material; five capture-rich middlegames at depth <= 2-3 for the static configurations; searches limited to a variation (Context.Ponder = every legal first move) must return minus the reference value of that move's child.",
    "The reference search calls the implementation's evaluator and exploration predicate (that is what 'same leaf evaluation / same explored moves' means); bounded by corpus and depth; reference node budget reported if hit.", "DESIGN.md §5 C03"),
  "C11": ("seq", "model_checking", "exhaustive enumeration of search sequences sharing one table (incl. every move and reply between two iterative deepenings); every exact store and every exact entry held validated against the reference value",
-   "For 17 roots x 2 position-determined configurations x 5 table sizes x 4 kinds of search sequence (iterative deepening, repeats, successive positions of a game, iterative deepening at successive positions) plus, for the low-branching roots, iterative deepening / EVERY move and EVERY reply / iterative deepening again: every search must return the table-less score and a PV starting with a best move, and every ExactBound store - mapped back to its position through the Exploration/QuietSearch seams - as well as every exact entry the table serves afterwards (swept by Read) must equal the value of that position at that depth. The same through the wrapper NewMinDepthTranspositionTable, with SARGON's nested-search plumbing over a material leaf, through the iterative-deepening driver (2270 positions analysed three times on one table, first move of every report valued) and through the engine (games played with and without a table).",
+   "For 17 roots x 2 position-determined configurations x 5 table sizes x 4 kinds of search sequence (iterative deepening, repeats, successive positions of a game, iterative deepening at successive positions) plus, for the low-branching roots, iterative deepening / EVERY move and EVERY reply / iterative deepening again: every search must return the table-less score and a PV starting with a best move, and every ExactBound store - mapped back to its position through the Exploration/QuietSearch seams - as well as every exact entry the table serves afterwards (swept by Read) must equal the value of that position at that depth. The same through the wrapper NewMinDepthTranspositionTable, with SARGON's nested-search plumbing over a material leaf, through the iterative-deepening driver (2270 positions analysed three times on one table, first move of every report valued) and through the engine (games played with and without a table, also as a new game right after a game on the same placement one or two half-moves from the fifty-move draw).",
    "Reference values are exhaustive minimax on fresh games, valid because the corpus excludes trees with repetition/fifty-move draws (as the property does); on the five capture-rich middlegame roots exhaustive minimax is out of reach and the value is what the search itself returns without a table.", "DESIGN.md §5 C11"),
  "C12": ("seq+mc", "fault_enumeration", "fault enumeration: the search is cancelled at every one of its N cancellation polls; plus stateless exploration of running searches halted by one or two callers at any instant",
    "Every cancellation point of every case (alpha-beta with static leaf or quiescence on an empty or warmed table, Minimax, SARGON's nested search) is exercised: the search must report ErrHalted, return the board unchanged, leave only true exact entries in the table, and follow-up searches on the same table must return what they return on a table that never saw the halted search. Interleaving half: real Iterative.Launch goroutines with a table, a halter thread and (with a time control) the hard-limit timer as lazy or grid-released threads; at the moment a caller's Halt returns the board has its initial ply and hash and the wrapped table is never read or written again. Engine level: a first analysis ended by Halt / Move / TakeBack / Reset on five roots (incl. mated, stalemated, claimable draw); the next analysis must start and equal a fresh engine's.",
